@@ -34,6 +34,10 @@ WORKLOADS = {
     # j steps after that request (the adaptor may still know the contact, or must ask for a new session)
     'second-after-termination': (dict(), [(0, 1, 5), (0, 1, 6)], False),
     'reply-over-reverse-route': (dict(routes={0: [('^dtn://n1/.*', 1)], 1: []}), [(0, 1, 4), (1, 0, 11)], False),
+    # the configured route carries an MTU (the BP agent fragments, node 1 puts together); with the session set up on demand
+    # and beforehand (the adaptor has then already added its own route for the peer)
+    'route-mtu': (dict(seg_mru=64, routes={0: [('^dtn://n1/.*', 1, 200)], 1: []}), [(0, 1, 300), (0, 1, 20)], False),
+    'route-mtu-preconnected': (dict(seg_mru=64, routes={0: [('^dtn://n1/.*', 1, 200)], 1: []}), [(0, 1, 300), (0, 1, 20)], True),
 }
 
 
@@ -132,7 +136,10 @@ def run_nodes(params, known):
         fin = [(p, a) for (p, _path, m, a) in sig.log if m == 'recv_bundle_finished']
         if len(fin) < len(sends) or any(a[2] != 'success' for (_p, a) in fin):
             viol('receptions-announced-differ-from-bundles-sent', repr(fin), case)
-        if preconnect:
+        mtus = [e[2] for e in wparams.get('routes', {}).get(0, []) if len(e) > 2 and isinstance(e[2], int)]
+        if mtus and any(a[1] > mtus[0] for (_p, a) in fin):
+            viol('bundle-larger-than-the-route-mtu-crossed', 'route MTU %d, lengths received %r' % (mtus[0], [a[1] for (_p, a) in fin]), case)
+        if preconnect and not mtus:
             # the session was there before anything was handed over: nothing waits, no further connection is asked for
             opened = [a for (p, _path, m, a) in sig.log if m == 'connection_opened']
             if len(fin) != len(sends) or len(opened) != 2:
